@@ -52,6 +52,10 @@ FILTERS = {
                  '</C:prop-filter></C:comp-filter>'),
     "noTodo": flt('<C:comp-filter name="VTODO"><C:is-not-defined/></C:comp-filter>'),
     "all": flt(''),
+    "partstat": flt('<C:comp-filter name="VEVENT"><C:prop-filter name="ATTENDEE"><C:param-filter name="PARTSTAT">'
+                    '<C:text-match>ACCEPTED</C:text-match></C:param-filter></C:prop-filter></C:comp-filter>'),
+    "noPartstat": flt('<C:comp-filter name="VEVENT"><C:prop-filter name="ATTENDEE"><C:param-filter name="PARTSTAT">'
+                      '<C:is-not-defined/></C:param-filter></C:prop-filter></C:comp-filter>'),
 }
 
 
@@ -105,6 +109,8 @@ BODIES = {
                         extra=("RRULE:FREQ=MONTHLY;COUNT=3",)),
                      ev(U, "Alpha moved", dtstart="20200120T100000Z", dtend="20200120T110000Z",
                         extra=("RECURRENCE-ID:20200410T100000Z",))), "multi"),
+    "att": (lambda U: cal(ev(U, "Alpha", extra=("ATTENDEE;PARTSTAT=ACCEPTED:mailto:a@example.com",))), "plain"),
+    "attN": (lambda U: cal(ev(U, "Alpha", extra=("ATTENDEE:mailto:b@example.com",))), "plain"),
     "tz": (lambda U: cal(TZ_BERLIN, ev(U, "Alpha", dtstart=";TZID=Europe/Berlin:20200201T003000",
                              dtend=";TZID=Europe/Berlin:20200201T013000")), "tzid"),
     "bad": (lambda U: b"BEGIN:VCALENDAR\r\nthis is not a calendar\r\n", "unparseable"),
